@@ -29,7 +29,7 @@ func c04r13(c *core.Ctx) {
 	var writes []write
 	fieldOfBase := func(e ast.Expr) string {
 		e = ast.Unparen(m.Inline(m.StripConv(e)))
-		if k := fieldKeyOf(m, e); k != "" && isSliceType(m.Info.TypeOf(e)) && ownerOf(k) != "slices" && ownerOf(k) != "?" {
+		if k := fieldKeyOf(m, e); k != "" && isSliceType(m.Info.TypeOf(e)) && !isScratchOwner(m, ownerOf(k)) && ownerOf(k) != "?" {
 			return k
 		}
 		return ""
